@@ -62,6 +62,7 @@ def stepKeys (p : KeysProg) (toks : List String) : KeysProg × String :=
     match parsePK 64 pk.toList, m.toNat?, parseSig 64 sg.toList with
     | some (k, []), some m, some (s, []) => (p, showBool (verify k m s))
     | _, _, _ => (p, "bad-op")
+  | "mon.foreignkey" :: _ => (p, "done")   -- implementation-side monitor (a key made elsewhere, imported: own address, usable)
   | "mon.sigsplit" :: _ => (p, "done")   -- implementation-side monitor (a signature binds its message, also once verified)
   | "mon.keybytes" :: _ => (p, "done")   -- implementation-side monitor (raw private-key bytes and back)
   | ["depth", limit, pk] =>
